@@ -296,10 +296,7 @@ func main() {
 	sw.WriteString("/- GENERATED by harness/cmd/factgen (translate.go) from /repo's source on every run. Do not edit. -/\n")
 	sw.WriteString("import Whawty.Gen.Prelude\nnamespace Whawty.Gen\nopen Whawty\n\n")
 	if fset, f := parse(filepath.Join(repo, "sasl", "sasl_encoding.go")); f != nil {
-		consts := map[string]int{}
-		if v, ok := fc.nat["saslMaxRequestLength"]; ok {
-			consts["MaxRequestLength"] = v
-		}
+		consts := fileIntConsts(f)
 		sw.WriteString(translateFunc(f, fset, "scanLengthEncodedString", "scanLengthEncodedString", "Bytes → Bool → Int × Option Bytes × Bool", consts, nil))
 	} else {
 		sw.WriteString("def scanLengthEncodedString : Option (Bytes → Bool → Nat × Option Bytes × Bool) := none\n")
@@ -333,6 +330,28 @@ func main() {
 	if string(old) != cw.String() {
 		os.WriteFile(cfOut, []byte(cw.String()), 0644)
 	}
+}
+
+// fileIntConsts: the package-level constants of the file that are integer literals.
+func fileIntConsts(f *ast.File) map[string]int {
+	out := map[string]int{}
+	for _, d := range f.Decls {
+		gd, ok := d.(*ast.GenDecl)
+		if !ok || gd.Tok != token.CONST {
+			continue
+		}
+		for _, sp := range gd.Specs {
+			vs := sp.(*ast.ValueSpec)
+			for i, name := range vs.Names {
+				if i < len(vs.Values) {
+					if v, ok := litInt(vs.Values[i]); ok {
+						out[name.Name] = v
+					}
+				}
+			}
+		}
+	}
+	return out
 }
 
 // translateRe understands exactly the shape ^[class][class]*$ with literal characters and a-b
